@@ -209,7 +209,8 @@ def h_unbounded(c, direction):
     B.arrival, B.on_sort = arrival, on_sort
 
     buf_attr, rec_attr = direction + "_packet_buffer", direction + "_tls_records"
-    s = c.obj(SE, server_counter=0, client_counter=0)
+    from contracts.common import full_session
+    s = full_session(c, server_counter=0, client_counter=0)
     c.set(s, buf_attr, B)
     c.set(s, rec_attr, list(pre))
     qual = SE + ".extract_%s_buf" % direction
